@@ -93,6 +93,9 @@
 //!              back, also through `Exec.attempt`); `v.append(&mut tmp)`; `xs.iter().map(|pat| e).collect()` (pure
 //!              closure → `List.map`), `last()` / `first()`; `OctetsMut::with_slice(&mut local_buffer)` (the buffer
 //!              follows the cursor's writes); value-position `match` / `if` whose arms assign outer variables
+//!              `for v in map.values_mut()` (BTreeMap; a HashMap only under the manifest whitelist
+//!              HASHMAP_VALUES_MUT_OK and the check that the body touches nothing but its own value);
+//!              `btree.range(r)` with a `Range<u64>` value
 //!   not supported: `loop`, valued `break`, closures other than the pure `map` / `or_insert_with` ones, generics, traits, signed integers, floats,
 //!              references stored in data, `ref mut`, `&mut` parameters other than `self`, unsigned integers and the
 //!              octets / io cursors.
